@@ -521,6 +521,18 @@ fn emit_fn(
                     die(&format!("{}: @insert loop {}: no such loop (lost anchor)", selector, k));
                 }
             }
+            Anchor::LoopBefore(k) | Anchor::LoopAfter(k) => {
+                let mut li = rules::LoopStmtInserter {
+                    target: *k,
+                    after: matches!(anchor, Anchor::LoopAfter(_)),
+                    marker: i,
+                    done: false,
+                };
+                li.visit_block_mut(&mut block);
+                if !li.done {
+                    die(&format!("{}: @insert loop {} before/after: no such loop statement (lost anchor)", selector, k));
+                }
+            }
             Anchor::After(_) | Anchor::Before(_) | Anchor::Chain(_) => {}
         }
     }
